@@ -16,6 +16,8 @@ What the proof leaves open are three classes, each an open finding with a `decid
 import Restful.Lemmas.Agree
 import Restful.Lemmas.StateShape
 import Restful.Lemmas.TieOrder
+import Restful.Lemmas.TieImpMatch
+import Restful.Lemmas.TieImpScore
 namespace Restful
 namespace Props
 variable (E : ReEnv)
@@ -168,3 +170,8 @@ end C18Audit
 
 end Props
 end Restful
+
+-- the imperative functions this property's model rests on, tied to their statement-by-statement
+-- translation (tools/goimp, Gen/Imp.lean, regenerated on every run):
+-- also: Restful.TieImp.match_tokens
+-- also: Restful.TieImp.T2.webservice_score
